@@ -154,6 +154,13 @@ pub fn cmd_worker(args: &[String]) -> i32 {
                 hashes.push(h.shape_hash());
                 if st.samples.len() < 3 {
                     st.samples.push(format!("run {} seed {:#x}: {}", index, rs, h.summary()));
+                    if st.samples.len() == 1 {
+                        // one history written out in full (the replay file format of its steps)
+                        let full = serde_json::to_string(&h.steps).unwrap_or_default();
+                        if full.len() < 6000 {
+                            st.samples.push(format!("run {} in full: {}", index, full));
+                        }
+                    }
                 }
             }
             st.nontrivial_flag = false;
